@@ -27,4 +27,7 @@ props! {
     "C03" => c03,
     "C04" => c04,
     "C05" => c05,
+    "C12" => c12,
+    "C13" => c13,
+    "C14" => c14,
 }
